@@ -2,6 +2,9 @@ use crate::errors::{Result, RuleEngineError};
 use crate::types::{Context, Value};
 use serde::{Deserialize, Serialize};
 use std::collections::HashMap;
+#[cfg(rre_verif_loom)]
+use loom::sync::{Arc, RwLock};
+#[cfg(not(rre_verif_loom))]
 use std::sync::{Arc, RwLock};
 
 /// Facts - represents the working memory of data objects
